@@ -228,6 +228,7 @@ def canon(netlist, drop=(".NS", ".NAME"), sort_pins=False):
     else:
         R = top.reference
         out["top"] = {"name": top.name, "data": data_of(top, drop),
+                      "is_top": bool(top.is_top_instance),
                       "ref": None if R is None else def_pos.get(id(R), "outside:%s" % (R.name,))}
     return out
 
@@ -463,3 +464,30 @@ def reachable_ids(netlist):
         s.add(id(top))
         s.update(id(v) for v in top.pins.values())
     return s
+
+
+def library_deps_acyclic(netlist):
+    """library dependency graph (library A instantiates a cell of library B) has no cycle"""
+    dep = {}
+    for L in netlist.libraries:
+        s = set()
+        for D in L.definitions:
+            for I in D.children:
+                R = I.reference
+                if R is not None and R.library is not None and R.library is not L:
+                    s.add(id(R.library))
+        dep[id(L)] = s
+    state = {}
+
+    def visit(n):
+        if state.get(n) == 1:
+            return False
+        if state.get(n) == 2:
+            return True
+        state[n] = 1
+        for m in dep.get(n, ()):
+            if not visit(m):
+                return False
+        state[n] = 2
+        return True
+    return all(visit(n) for n in dep)
